@@ -691,3 +691,44 @@ Definition tm_model_stop (st : tmst) : option tmst :=
                     (S (tm_joins st)) [])
     else None
   else Some (tm_clear st).
+
+(* =====================================================================
+   SearchCatalog.get_source_id: the table path -> source id.  The pipeline
+   model identifies a task, its path and its source id (results are filed
+   under the path of their source id): that needs the ids of distinct
+   catalog paths to be distinct.
+   ===================================================================== *)
+Section SourceIds.
+  Variable Pth : Type.
+  Variable same : Pth -> Pth -> bool.   (* the reuse test *)
+  Variable first_id : Z.
+  Variable fresh : Z -> Z.              (* from the largest id in use *)
+
+  Definition idtable := list (Z * Pth).
+
+  Fixpoint lookup_id (p : Pth) (tbl : idtable) : option Z :=
+    match tbl with
+    | [] => None
+    | (i, q) :: r => if same q p then Some i else lookup_id p r
+    end.
+
+  Fixpoint max_id (tbl : idtable) : Z :=
+    match tbl with
+    | [] => first_id
+    | [(i, _)] => i
+    | (i, _) :: r => Z.max i (max_id r)
+    end.
+
+  Definition new_id (tbl : idtable) : Z :=
+    match tbl with [] => first_id | _ => fresh (max_id tbl) end.
+
+  (* get_source_id(path): returns the id and the updated table *)
+  Definition get_source_id (p : Pth) (tbl : idtable) : Z * idtable :=
+    match lookup_id p tbl with
+    | Some i => (i, tbl)
+    | None => (new_id tbl, tbl ++ [(new_id tbl, p)])
+    end.
+
+  Definition register_all (ps : list Pth) : idtable :=
+    fold_left (fun t p => snd (get_source_id p t)) ps [].
+End SourceIds.
